@@ -270,3 +270,49 @@ def check_total(pi: int, slot: int, ek: int) -> bool:
     if why:
         LAST_DIFF = (why, text); return False
     return True
+
+
+HIST_EDITS = ['truncate_before', 'duplicate', 'ins_dquote', 'swap']
+
+
+def check_history(p1: int, slot: int, ek: int, n: int) -> bool:
+    """
+    pre: 0 <= p1 < NMY and 2 <= slot < MAXTOK and 0 <= ek < 4 and 1 <= n <= 2
+    post: POST(_)
+    """
+    # parse() has no memory: after n parses of an edited (mostly rejected) multi-line text the positions
+    # recorded for a following valid multi-line text are those of that text alone
+    global LAST_DIFF
+    p1 = MYPROGS[cs(p1, 0, NMY - 1)]; slot = cs(slot, 2, MAXTOK - 1); ek = cs(ek, 0, 3); n = cs(n, 1, 2)
+    p2 = (p1 * 7 + slot * 3 + ek) % NP      # the following valid program rotates through the corpus
+    with notrace():
+        toks = tokens(PROGS[p1])
+        if slot >= len(toks):
+            return None
+        bad = edit(toks, slot, HIST_EDITS[ek])
+        if bad is None:
+            return None
+        bad = bad.replace('; ', ';\n').replace(' ', '\n', 1)
+        outcomes = []
+        for _ in range(n):
+            try:
+                oal.parse(bad)
+                outcomes.append('tree')
+            except oal.ParseException:
+                outcomes.append('rejected')
+            except Exception as e:  # noqa
+                outcomes.append('raises %s' % type(e).__name__)
+        toks2 = tokens(PROGS[p2])
+        text, offs = assemble(toks2, 1, 1, 1)
+        try:
+            got, why = spans(text, offs, toks2)
+        except oal.ParseException as e:
+            got, why = None, ('valid text rejected after %r' % outcomes, str(e))
+    case('history', p1, slot, HIST_EDITS[ek], p2, n)
+    if any(o.startswith('raises') for o in outcomes):
+        LAST_DIFF = (outcomes, bad); return False
+    if why:
+        LAST_DIFF = (why, 'after', outcomes, bad, text); return False
+    if got != EXPECTED.get(PROGS[p2]):
+        LAST_DIFF = ('node spans differ after', outcomes, bad, text); return False
+    return True
